@@ -46,7 +46,7 @@ BOUNDS = {
     "quick": {
         "specs": ["3.0", "2.0"], "statuses": {"family_S": STATUSES, "family_R": R_STATUSES_QUICK}, "content_types": [c[0] for c in CONTENT_TYPES], "x_a": [x[0] for x in XA_VALUES],
         "bodies": ["valid_A", "invalid_A", "valid_B_only", "null", "malformed_json", "empty", "write_only_present (writeOnly family)"],
-        "family_S_keys": "every non-empty subset of {200 as '200' or as integer 200, 201, 2XX, 4XX, default} x every choice of the key carrying Pa",
+        "family_S_keys": "every non-empty subset of {200 as '200' or as integer 200, 201, 2XX, 4XX, default} in both writing orders x every choice of the key carrying Pa",
         "family_R_keysets": [["200"], ["default"]], "family_R_keysets_2.0": [["200"]],
         "validate_response_all_four_checks": "every pair of family S; pairs of family R without an X-A header",
         "content": ["none", "json:A", "json:A+xml:B", "xml:B+json:A", "*/*:A", "problem+json:A", "json:A+problem+json:B"],
@@ -243,8 +243,10 @@ def items(tier: str, seed: int) -> list[dict]:
     out: list[dict] = []
     for spec in b["specs"]:
         for keys in _keysets_s(spec):
-            for pa in range(len(keys)):
-                out.append({"fam": "S", "spec": spec, "keys": keys, "pa": pa})
+            # both writing orders of the mapping: which definition applies must not depend on the order of the keys
+            for ordered in ([keys, keys[::-1]] if len(keys) > 1 else [keys]):
+                for pa in range(len(ordered)):
+                    out.append({"fam": "S", "spec": spec, "keys": ordered, "pa": pa})
     for spec in b["specs"]:
         families = [f for f in ("required_int", "nullable", "write_only", "read_only", "ref", "recursive_ref", "ref_two_levels")
                     if f in SCHEMA_FAMILIES_QUICK or tier == "thorough"]
